@@ -395,17 +395,27 @@ impl DateFilter for ds::MonthdayRange {
                 let start_month: u32 = *range.start() as _;
                 let end_month: u32 = *range.end() as _;
 
-                let start = NaiveDate::from_ymd_opt(year, *range.start() as _, 1)?;
-                let end = {
-                    if start_month <= end_month && end_month < 12 {
-                        NaiveDate::from_ymd_opt(year, end_month + 1, 1)?
-                    } else {
-                        NaiveDate::from_ymd_opt(year + 1, end_month % 12 + 1, 1)?
-                    }
-                };
+                let start = NaiveDate::from_ymd_opt(year, start_month, 1)?;
 
                 // Bounds are inclusive: the range ends on the day before the following month
-                Some(next_change_from_bounds(date, [start], [end.pred_opt()?]))
+                let end = {
+                    if end_month < 12 {
+                        NaiveDate::from_ymd_opt(year, end_month + 1, 1)?
+                    } else {
+                        NaiveDate::from_ymd_opt(year + 1, 1, 1)?
+                    }
+                }
+                .pred_opt()?;
+
+                if start_month <= end_month {
+                    Some(next_change_from_bounds(date, [start], [end]))
+                } else {
+                    // A wrapping range stays within its year: `2020 Nov-Feb` is January to
+                    // February, then November to December of 2020
+                    let year_start = NaiveDate::from_ymd_opt(year, 1, 1)?;
+                    let year_end = NaiveDate::from_ymd_opt(year, 12, 31)?;
+                    Some(next_change_from_bounds(date, [year_start, start], [end, year_end]))
+                }
             }
             ds::MonthdayRange::Date {
                 start: (start @ ds::Date::Fixed { year: Some(_), .. }, start_offset),
